@@ -1,8 +1,11 @@
 """C11: connection-level check (see DESIGN section 6 / C11): scenario families on the real endpoints, recorded traces
 validated against RSocket.tla by TLC; design-level model checking of the same monitors in RSocketMC.tla."""
-from . import conn, families, mc
+from . import conn, families, mc, lifecycle
 
 
 def run(v):
     mc.run_for(v, 'C11')
+    # Lifecycle.tla: explicit close() at any moment relative to reconnects, losses and requests (incl. racing calls), replayed on
+    # the real client; the recorded paths are judged by the monitors of RSocket.tla
+    lifecycle.check(v, ('C11.',))
     conn.check(v, 'C11', families.FAMILIES['C11'])
